@@ -620,7 +620,7 @@ Section Merge.
           else mkrun (Exit 0) (vb ++ [ODump is_json dumps]) fx
     end.
 
-  Definition merge_main (estr : nat) (a : merge_args) (tty : bool) (srcs : list source) (stdin_src : source) : crun :=
+  Definition cli_merge_main (estr : nat) (a : merge_args) (tty : bool) (srcs : list source) (stdin_src : source) : crun :=
     let '(nerr, vlines, n') := merge_validate a (List.length srcs) (map s_name srcs) tty in
     if negb (Nat.eqb nerr 0) then mkrun (Exit 1) vlines []
     else
@@ -837,7 +837,7 @@ Section SetTool.
         end
     end.
 
-  Definition set_main (a : set_args) (tty : bool) (valfile_ok : bool) (load : raw1)
+  Definition cli_set_main (a : set_args) (tty : bool) (valfile_ok : bool) (load : raw1)
              (gather : lres (list setnode)) : crun :=
     let nerr := set_validate_errors a tty in
     if negb (Nat.eqb nerr 0) then mkrun (Exit 1) (hints nerr) []
